@@ -405,7 +405,41 @@ class Heap:
                 fn = self.module.method(o['__class__'], node.id)
                 if fn is not None:
                     return Closure(fn.node, {}, ref, fn.cls)
+        if o['__class__'] in self.module.classes and not attr.startswith('#') and self.never_has(o['__class__'], attr):
+            # no class of the object's hierarchy defines, stores or declares (__slots__) an attribute of that name, and all its base
+            # classes are classes of the analysed modules (or object): the look-up raises AttributeError
+            raise Raised('AttributeError', self.version, 0)
         raise AnalysisError('heap model: %s has no attribute %s' % (o['__class__'], attr))
+
+    def never_has(self, cname, attr):
+        cache = self.__dict__.setdefault('never_has_cache', {})
+        if (cname, attr) in cache:
+            return cache[(cname, attr)]
+        ok = True
+        for c_ in self.module.mro(cname):
+            cd = self.module.classes.get(c_)
+            if cd is None:
+                ok = False
+                break
+            for b_ in cd.bases:
+                bn_ = norm(b_).split('[')[0]
+                if bn_.split('.')[-1] not in self.module.classes and bn_ not in ('object', 'Generic', 'typing.Generic') and not bn_.startswith('Generic'):
+                    ok = False          # (a base class outside the analysed modules may bring the attribute)
+            if any(m_.name == '__getattr__' for m_ in cd.body if isinstance(m_, ast.FunctionDef)):
+                ok = False
+            for n_ in ast.walk(cd):
+                if isinstance(n_, ast.Attribute) and n_.attr in (attr, attr.split('__')[-1] if attr.startswith('_' + c_.lstrip('_') + '__') else attr) and isinstance(n_.ctx, ast.Store):
+                    ok = False
+                if isinstance(n_, (ast.FunctionDef, ast.ClassDef)) and n_.name == attr:
+                    ok = False
+                if isinstance(n_, ast.Name) and n_.id == attr and isinstance(n_.ctx, ast.Store):
+                    ok = False
+                if isinstance(n_, ast.Constant) and n_.value == attr:
+                    ok = False          # (a name in __slots__, a setattr(self, 'name', ...))
+            if not ok:
+                break
+        cache[(cname, attr)] = ok
+        return ok
 
     def _class_body_value(self, node, c):
         """value of an expression of the class body of c that is built from constants, tuples / lists and names of functions defined in
@@ -844,7 +878,20 @@ class Interp:
             if e.id in h.hooks:
                 return ('hook', e.id)
             if e.id in h.module.funcs:
-                return Closure(h.module.funcs[e.id].node, {}, None, None)
+                fdef_ = h.module.funcs[e.id].node
+                decos_ = [d_ for d_ in getattr(fdef_, 'decorator_list', []) if isinstance(d_, ast.Name) and d_.id in h.module.funcs and d_.id not in h.hooks
+                          and any(isinstance(x_, ast.FunctionDef) for x_ in h.module.funcs[d_.id].node.body)]
+                if decos_ and len(decos_) == len(fdef_.decorator_list):
+                    # @decorator of the analysed modules (a function that returns a nested function): the name is bound to what the
+                    # decorator returns for the function, made once
+                    mv_ = h.__dict__.setdefault('module_values', {})
+                    if ('@', e.id) not in mv_:
+                        v_ = Closure(fdef_, {}, None, None)
+                        for d_ in reversed(decos_):
+                            v_ = self.call(Closure(h.module.funcs[d_.id].node, {}, None, None), [v_])
+                        mv_[('@', e.id)] = v_
+                    return mv_[('@', e.id)]
+                return Closure(fdef_, {}, None, None)
             for mod_ in (h.module.mods if hasattr(h.module, 'mods') else [h.module]):
                 node_ = mod_.const_nodes.get('', {}).get(e.id)
                 if isinstance(node_, ast.Call) and norm(node_.func) == 're.compile':
@@ -927,6 +974,11 @@ class Interp:
                 return mv_[e.id]
             for mod_ in (h.module.mods if hasattr(h.module, 'mods') else [h.module]):
                 node_ = mod_.const_nodes.get('', {}).get(e.id)
+                if isinstance(node_, ast.Call) and isinstance(node_.func, ast.Name) and node_.func.id[:1].isupper() and node_.func.id in h.module.classes \
+                        and node_.func.id not in h.hooks and e.id.isupper() and h.module.method(node_.func.id, '__init__') is not None:
+                    # NAME = ClassOfTheModules(...) at module level (a constant object: an interpretation, a formatter): made once
+                    mv_[e.id] = self.ev(node_, {}, None)
+                    return mv_[e.id]
                 if isinstance(node_, ast.Call) and isinstance(node_.func, ast.Name) and not node_.func.id[:1].isupper():
                     fac_ = None
                     for m2_ in (h.module.mods if hasattr(h.module, 'mods') else [h.module]):
@@ -977,6 +1029,11 @@ class Interp:
                     fn_ = home_.funcs.get('%s.%s' % (c_, e.attr)) if home_ is not None else None
                     if fn_ is not None:
                         return Closure(fn_.node, {}, me_, c_)
+                if e.attr in ('__exit__', '__enter__') and any('AbstractContextManager' in norm(b_) for c2_ in mro_ if c2_ in h.module.classes for b_ in h.module.classes[c2_].bases):
+                    # contextlib.AbstractContextManager: __enter__ hands out the object, __exit__ answers None (nothing is swallowed)
+                    h.hooks.setdefault('#acm___enter__', lambda it_, a_, k_: a_[0])
+                    h.hooks.setdefault('#acm___exit__', lambda it_, a_, k_: None)
+                    return ('partial', ('hook', '#acm_' + e.attr), [me_], {})
                 raise AnalysisError('heap model: super().%s not found above %s' % (e.attr, cls))
             if isinstance(base, tuple) and len(base) == 2 and base[0] == 'class' and base[1] in ('str', 'bytes') and base[1] not in h.module.classes \
                     and not e.attr.startswith('_') and callable(getattr(str if base[1] == 'str' else bytes, e.attr, None)):
